@@ -1500,9 +1500,11 @@ def _h_parse(ctx, h, e, fmt, classes, join):
         ctx.fail(sig, 'format %s: live %r printed as %r is parsed as %r, '
                  'expected %r' % (fmt, e['obj'], u, q, want))
         raise _Stop()
-    want_recipe = _recipe_of(want)
     if fmt == 'canonical':
-        want_recipe = _lowered(want_recipe)
+        # the spelling the canonical format gives (string key values that
+        # read as a URI keep theirs)
+        want = _expected(S.build(_lowered(recipe)), fmt, [0])
+    want_recipe = _recipe_of(want)
     ent = dict(kind=kind, text=u, fmt=fmt, want=want_recipe, seq=h.seq,
                nodes=set())
     h.parsed.append(ent)
